@@ -128,13 +128,9 @@ func (s *JobSim) Finish(name string, kind int) {
 		}
 	case ErrFail:
 		if t.AllowFailure {
+			// failed while marked allow_failure (the task is reported errored, its stage ends "done"): this neither fails
+			// the job nor stops its other tasks, whatever the fail-fast setting (D18)
 			t.State = TErrAllowed
-			if s.FailFast {
-				// the task is reported errored, fail-fast cancels the job while the stage ends "done": whether
-				// dependents are launched before the cancel is delivered is a race
-				s.Ambiguous = true
-				s.cancelRunning(nil)
-			}
 		} else {
 			t.State = TFailed
 			if s.FailFast {
